@@ -116,7 +116,17 @@ fn main() {
         let h = tb.spawn(move || { let r = f(); let _ = tx.send(r); }).unwrap();
         match rx.recv_timeout(std::time::Duration::from_secs(20)) {
             Ok(res) => { let _ = h.join(); println!("{}\t{}\t{}", name, res, take_log()); }
-            Err(_) => { println!("{}\tBLOCKED\t{}", name, take_log()); }
+            Err(_) => { println!("{}\tBLOCKED\t{}", name, take_log()); continue; }
+        }
+        // the same call site once more, from a thread with another name (`…_2` programs only): thread names are composed
+        // from the thread that runs the macro *now*
+        if name.ends_with("_2") {
+            let (tx, rx) = std::sync::mpsc::channel();
+            let h = std::thread::Builder::new().name("w2".to_string()).spawn(move || { let r = f(); let _ = tx.send(r); }).unwrap();
+            match rx.recv_timeout(std::time::Duration::from_secs(20)) {
+                Ok(res) => { let _ = h.join(); println!("{}#2\t{}\t{}", name, res, take_log()); }
+                Err(_) => { println!("{}#2\tBLOCKED\t{}", name, take_log()); }
+            }
         }
     }
 }
@@ -390,14 +400,15 @@ def normalize_panic(msg, base=0):
     return msg
 
 
-def lean_expected(progs, structures):
-    """Runs SPEC and RUN for every program. Returns dict pid -> (spec_line, run_line)."""
+def lean_expected(progs, structures, parent=None):
+    """Runs SPEC and RUN for every program (on a caller thread called `parent`; default: `main`, or no name for `_u`
+    programs). Returns dict pid -> (spec_line, run_line)."""
     lines = []
     for p in progs:
         st = structures[p.pid]
-        u = "U" if p.pid.endswith("_u") else ""     # caller thread without a name
-        lines.append("SPEC%s\t%s\t%s\t%s\t%s" % (u, p.pid, p.kind, st, p.world()))
-        lines.append("RUN%s\t%s\t%s\t%s\t%s" % (u, p.pid, p.kind, st, p.world()))
+        par = parent or ("-" if p.pid.endswith("_u") else "main")     # `-`: caller thread without a name
+        lines.append("SPECN\t%s\t%s\t%s\t%s\t%s" % (p.pid, p.kind, st, p.world(), par))
+        lines.append("RUNN\t%s\t%s\t%s\t%s\t%s" % (p.pid, p.kind, st, p.world(), par))
     outs = k1.run_driver(lines)
     res = {}
     for i, p in enumerate(progs):
@@ -515,10 +526,14 @@ def run_programs(ctx, progs, crate="k2sync", with_async=False, prelude=PRELUDE_S
     """Compile + run progs, compare with Lean. Returns list of (prog, problems, rust_line, spec_line)."""
     if not progs:
         return []
-    # every third program of a thread-spawning kind is called from a thread without a name
+    # every third program of a thread-spawning kind is called from a thread without a name; another third is executed a
+    # second time, from a thread called `w2`
     for i, p in enumerate(progs):
-        if main is MAIN_SYNC and p.kind in ("a0t0s1", "a0t1s1") and i % 3 == 2 and not p.pid.endswith("_u"):
-            p.pid += "_u"
+        if main is MAIN_SYNC and p.kind in ("a0t0s1", "a0t1s1") and not p.pid.endswith(("_u", "_2")):
+            if i % 3 == 2:
+                p.pid += "_u"
+            elif i % 3 == 1:
+                p.pid += "_2"
     # structures through the real parser (also a K1 comparison of these inputs)
     cases = [(p.pid, p.kind, p.macro_input(), "k2") for p in progs]
     reals = k1.run_real(cases)
@@ -536,6 +551,8 @@ def run_programs(ctx, progs, crate="k2sync", with_async=False, prelude=PRELUDE_S
         ctx.k1_diffs += diffs
         ctx.broken.append(("K1 generator correspondence (K2 programs)", [d.to_json() for d in diffs[:3]]))
     expected = lean_expected(progs, structures)
+    second = [p for p in progs if p.pid.endswith("_2")]
+    expected2 = lean_expected(second, structures, parent="w2") if second else {}
     for i, p in enumerate(progs):
         p.base = 1000 * (i + 1)
     src = prelude + "".join(p.rust_fn() for p in progs) + main % ", ".join('("%s", %s as fn() -> String)' % (p.pid, p.pid) for p in progs)
@@ -553,8 +570,16 @@ def run_programs(ctx, progs, crate="k2sync", with_async=False, prelude=PRELUDE_S
     for p in progs:
         spec_line, run_line = expected[p.pid]
         rl = lines.get(p.pid, "MISSING\t")
-        results.append((p, compare_program(p, rl, spec_line, run_line), rl, spec_line))
-    ctx.evals += len(progs)
+        problems = compare_program(p, rl, spec_line, run_line)
+        if p.pid in expected2 and not problems:
+            spec2, run2 = expected2[p.pid]
+            rl2 = lines.get(p.pid + "#2", "MISSING\t")
+            pr2 = compare_program(p, rl2, spec2, run2)
+            if pr2:
+                problems = [(c, "second execution of the same call site, from a thread called `w2`: " + t) for (c, t) in pr2]
+                rl, spec_line = rl2, spec2
+        results.append((p, problems, rl, spec_line))
+    ctx.evals += len(progs) + len(second)
     return results
 
 
@@ -583,7 +608,9 @@ def report(ctx, results, signature_fn=None):
             ctx.out.violation({
                 "macro": p.name, "macro_kind": p.kind, "source": p.macro_input(), "program": "%s! { %s }" % (p.name, p.macro_input()),
                 "world": p.world(), "observed": rust_line, "reference_semantics": spec_line, "problems": impl[:4],
-                "caller_thread": "a thread without a name" if p.pid.endswith("_u") else "a thread named `main`",
+                "caller_thread": ("a thread without a name" if p.pid.endswith("_u") else
+                                  "a thread named `main`, then the same call site again from a thread named `w2`" if p.pid.endswith("_2")
+                                  else "a thread named `main`"),
                 "how_to_replay": "./check %s --replay <this file>  (compiles the program against /repo and re-compares)" % ctx.pid,
             }, found_input=True, signature=sig)
     return n_impl
